@@ -74,4 +74,179 @@ theorem decide_fresh (c : Cfg) (hc : c.WF) (e : Env) (left : List Nat) (t : Nat)
     simp only
     rw [if_pos hkm]
 
+/-- a set of tasks that the carried-over environment says are DONE and up to date, closed under dependencies -/
+structure FreshSet (c : Cfg) (env0 : Env) (D : Nat → Prop) : Prop where
+  closed : ∀ d, D d → ∀ d' ∈ c.depsOf d, D d'
+  lt : ∀ d, D d → d < c.n
+  done : ∀ d, D d → ∃ x sv, env0.entry d = some x ∧ x.st = .done ∧ x.startC = some sv ∧
+    ∀ d' ∈ c.depsOf d, ∃ y ev, env0.entry d' = some y ∧ y.endC = some ev ∧ ev ≤ sv
+
+/-- the tasks of a fresh set are never touched: entry as carried over, never executed, never in flight, never left for a
+later pass -/
+def InvF (env0 : Env) (D : Nat → Prop) (s : State) : Prop :=
+  ∀ d, D d → s.env.entry d = env0.entry d ∧ s.execCount d = 0 ∧ ¬ InFlight s d ∧ d ∉ s.left
+
+theorem passEnd_left (s : State) (d : Nat) (h : d ∈ (passEnd s).left) : d ∈ s.left := by
+  unfold passEnd at h
+  split at h
+  · exact h
+  · split at h
+    · exact h
+    · cases h
+
+theorem advance_left (s : State) (d : Nat) (h : d ∈ (advance s).left) : d ∈ s.left := by
+  unfold advance at h
+  simp only at h
+  split at h
+  · have := passEnd_left _ d h; exact this
+  · exact h
+
+/-- the master decides the head of `todo`: a member of a fresh set is kept as it is -/
+theorem InvF_decide {c : Cfg} (hc : c.WF) {env0 : Env} {D : Nat → Prop} (hD : FreshSet c env0 D) {s : State}
+    (ha : InvA c s) (h : InvF env0 D s) (t : Nat) (rest : List Nat) (ht : s.todo = t :: rest) (r : Decision) (env' : Env)
+    (hd : decide c s.env s.left t = (r, env')) :
+    (∀ d, D d → env'.entry d = env0.entry d) ∧ (D t → r = .drop) := by
+  obtain ⟨F1, _⟩ := decide_spec c s.env s.left t r env' hd
+  have hfresh : D t → decide c s.env s.left t = (.drop, s.env) := by
+    intro hDt
+    obtain ⟨x, sv, hx, hxd, hxs, hdeps⟩ := hD.done t hDt
+    apply decide_fresh c hc s.env s.left t x sv (by rw [(h t hDt).1]; exact hx) hxd hxs
+    intro d hdd
+    have hDd := hD.closed t hDt d hdd
+    obtain ⟨y, ev, hy, hye, hle⟩ := hdeps d hdd
+    obtain ⟨y', _, hy', hyd', _, _⟩ := hD.done d hDd
+    rw [hy] at hy'; injection hy' with hy'; subst hy'
+    exact ⟨(h d hDd).2.2.2, y, ev, by rw [(h d hDd).1]; exact hy, hyd', hye, hle⟩
+  constructor
+  · intro d hDd
+    by_cases e : d = t
+    · subst e
+      have := hfresh hDd
+      rw [hd] at this
+      injection this with _ he
+      rw [he]; exact (h d hDd).1
+    · rw [F1 d e]; exact (h d hDd).1
+  · intro hDt
+    have := hfresh hDt
+    rw [hd] at this
+    injection this with hr _
+
+/-- the fresh set is left alone by every step of every thread -/
+theorem InvF_step {c : Cfg} (hc : c.WF) {env0 : Env} {D : Nat → Prop} (hD : FreshSet c env0 D) {s s' : State}
+    (ha : InvA c s) (h : InvF env0 D s) (hs : Step c s s') : InvF env0 D s' := by
+  have hfl : ∀ d, D d → InFlight s' d → (s.mpc = .consider ∧ s'.mpc = .put d) := by
+    intro d hDd hf
+    rcases step_inflight hs d hf with h1 | h1
+    · exact absurd h1 (h d hDd).2.2.1
+    · exact h1
+  -- steps that leave the environment of the fresh set, the counters and `left` alone, and release no task
+  have quiet : (∀ d, D d → s'.env.entry d = s.env.entry d) → (∀ d, D d → s'.execCount d = s.execCount d) →
+      (∀ d, d ∈ s'.left → d ∈ s.left) → (∀ d, s.mpc = .consider → s'.mpc ≠ .put d) → InvF env0 D s' := by
+    intro h1 h2 h3 h4 d hDd
+    obtain ⟨a1, a2, a3, a4⟩ := h d hDd
+    refine ⟨by rw [h1 d hDd]; exact a1, by rw [h2 d hDd]; exact a2, ?_, fun hh => a4 (h3 d hh)⟩
+    intro hf
+    obtain ⟨hm, hp⟩ := hfl d hDd hf
+    exact h4 d hm hp
+  -- a worker writes only the entry of the task it holds, which is not in the fresh set
+  have held_env : ∀ (w t : Nat), held (s.wpc w) = some t → ∀ d, D d → d ≠ t := by
+    intro w t hheld d hDd e
+    subst e
+    exact (h d hDd).2.2.1 (Or.inr (Or.inr ⟨w, hheld⟩))
+  cases hs with
+  | mWait t rest env' hm ht hd =>
+    obtain ⟨henv, hdrop⟩ := InvF_decide hc hD ha h t rest ht _ env' hd
+    obtain ⟨e_env, _, _, _, e_x, _, _, e_m⟩ := advance_fields { s with env := env', left := s.left ++ [t] }
+    intro d hDd
+    obtain ⟨a1, a2, a3, a4⟩ := h d hDd
+    refine ⟨by rw [e_env]; exact henv d hDd, by rw [e_x]; exact a2, ?_, ?_⟩
+    · intro hf
+      obtain ⟨_, hp⟩ := hfl d hDd hf
+      exact e_m d hp
+    · intro hh
+      have := advance_left _ d hh
+      rcases List.mem_append.1 this with h1 | h1
+      · exact a4 h1
+      · simp at h1; subst h1
+        have := hdrop hDd
+        cases this
+  | mSkip t rest env' hm ht hd =>
+    obtain ⟨henv, hdrop⟩ := InvF_decide hc hD ha h t rest ht _ env' hd
+    obtain ⟨e_env, _, _, _, e_x, _, _, e_m⟩ := advance_fields { s with env := env' }
+    intro d hDd
+    obtain ⟨a1, a2, a3, a4⟩ := h d hDd
+    refine ⟨by rw [e_env]; exact henv d hDd, by rw [e_x]; exact a2, ?_, fun hh => a4 (by have := advance_left _ d hh; exact this)⟩
+    intro hf
+    obtain ⟨_, hp⟩ := hfl d hDd hf
+    exact e_m d hp
+  | mDrop t rest env' hm ht hd =>
+    obtain ⟨henv, hdrop⟩ := InvF_decide hc hD ha h t rest ht _ env' hd
+    obtain ⟨e_env, _, _, _, e_x, _, _, e_m⟩ := advance_fields { s with env := env' }
+    intro d hDd
+    obtain ⟨a1, a2, a3, a4⟩ := h d hDd
+    refine ⟨by rw [e_env]; exact henv d hDd, by rw [e_x]; exact a2, ?_, fun hh => a4 (by have := advance_left _ d hh; exact this)⟩
+    intro hf
+    obtain ⟨_, hp⟩ := hfl d hDd hf
+    exact e_m d hp
+  | mPending t rest env' hm ht hd =>
+    obtain ⟨henv, hdrop⟩ := InvF_decide hc hD ha h t rest ht _ env' hd
+    intro d hDd
+    obtain ⟨a1, a2, a3, a4⟩ := h d hDd
+    refine ⟨henv d hDd, a2, ?_, a4⟩
+    intro hf
+    obtain ⟨_, hp⟩ := hfl d hDd hf
+    injection hp with hp
+    subst hp
+    have := hdrop hDd
+    cases this
+  | mPut t hm =>
+    obtain ⟨e_env, _, _, _, e_x, _, _, e_m⟩ :=
+      advance_fields { s with queue := s.queue ++ [some t], unfinished := s.unfinished + 1 }
+    exact quiet (fun d _ => by rw [e_env]) (fun d _ => by rw [e_x]) (fun d hh => by have := advance_left _ d hh; exact this)
+      (fun d hm' => by rw [hm] at hm'; cases hm')
+  | mSpawn k hm =>
+    exact quiet (fun _ _ => rfl) (fun _ _ => rfl) (fun _ hh => hh) (fun d hm' => by rw [hm] at hm'; cases hm')
+  | mAcq hm hcn =>
+    exact quiet (fun _ _ => rfl) (fun _ _ => rfl) (fun _ hh => hh) (fun d hm' => by rw [hm] at hm'; cases hm')
+  | mWake hm hn hcn =>
+    exact quiet (fun _ _ => rfl) (fun _ _ => rfl) (fun _ hh => by cases hh) (fun d hm' => by rw [hm] at hm'; cases hm')
+  | mQjoin hm hu =>
+    exact quiet (fun _ _ => rfl) (fun _ _ => rfl) (fun _ hh => hh) (fun d hm' => by rw [hm] at hm'; cases hm')
+  | mSentinel k hm =>
+    exact quiet (fun _ _ => rfl) (fun _ _ => rfl) (fun _ hh => hh) (fun d hm' => by rw [hm] at hm'; cases hm')
+  | mJoin k hm he =>
+    exact quiet (fun _ _ => rfl) (fun _ _ => rfl) (fun _ hh => hh) (fun d hm' => by rw [hm] at hm'; cases hm')
+  | wBegin w hw =>
+    exact quiet (fun _ _ => rfl) (fun _ _ => rfl) (fun _ hh => hh) (fun d hm' hp => by rw [hm'] at hp; cases hp)
+  | wGetTask w t rest hw hq =>
+    exact quiet (fun _ _ => rfl) (fun _ _ => rfl) (fun _ hh => hh) (fun d hm' hp => by rw [hm'] at hp; cases hp)
+  | wGetSentinel w rest hw hq =>
+    exact quiet (fun _ _ => rfl) (fun _ _ => rfl) (fun _ hh => hh) (fun d hm' hp => by rw [hm'] at hp; cases hp)
+  | wTimeStart w t hw =>
+    have hne := held_env w t (by rw [hw]; rfl)
+    exact quiet (fun _ _ => rfl) (fun d hDd => upd_other _ _ _ _ (hne d hDd)) (fun _ hh => hh)
+      (fun d hm' hp => by rw [hm'] at hp; cases hp)
+  | wTimeEnd w t a hw =>
+    exact quiet (fun _ _ => rfl) (fun _ _ => rfl) (fun _ hh => hh) (fun d hm' hp => by rw [hm'] at hp; cases hp)
+  | wApply w t a b hw =>
+    have hne := held_env w t (by rw [hw]; rfl)
+    exact quiet (fun d hDd => entry_updEntry_other _ _ _ _ (hne d hDd)) (fun _ _ => rfl) (fun _ hh => hh)
+      (fun d hm' hp => by rw [hm'] at hp; cases hp)
+  | wClocks w t a b hw =>
+    have hne := held_env w t (by rw [hw]; rfl)
+    exact quiet (fun d hDd => entry_updEntry_other _ _ _ _ (hne d hDd)) (fun _ _ => rfl) (fun _ hh => hh)
+      (fun d hm' hp => by rw [hm'] at hp; cases hp)
+  | wStatus w t hw =>
+    have hne := held_env w t (by rw [hw]; rfl)
+    exact quiet (fun d hDd => entry_setSt_other _ _ _ _ (hne d hDd)) (fun _ _ => rfl) (fun _ hh => hh)
+      (fun d hm' hp => by rw [hm'] at hp; cases hp)
+  | wTaskDone w hw hu =>
+    exact quiet (fun _ _ => rfl) (fun _ _ => rfl) (fun _ hh => hh) (fun d hm' hp => by rw [hm'] at hp; cases hp)
+  | wCacq w hw hcn =>
+    exact quiet (fun _ _ => rfl) (fun _ _ => rfl) (fun _ hh => hh) (fun d hm' hp => by rw [hm'] at hp; cases hp)
+  | wNotify w hw =>
+    exact quiet (fun _ _ => rfl) (fun _ _ => rfl) (fun _ hh => hh) (fun d hm' hp => by rw [hm'] at hp; cases hp)
+  | wSentinelDone w hw hu =>
+    exact quiet (fun _ _ => rfl) (fun _ _ => rfl) (fun _ hh => hh) (fun d hm' hp => by rw [hm'] at hp; cases hp)
+
 end Sched
